@@ -12,7 +12,7 @@ import time
 VERIF = os.path.dirname(os.path.dirname(os.path.abspath(__file__)))
 
 
-def run_mutants(pid, mutants, repo='/repo', tier='quick', keep=False, jobs=4):
+def run_mutants(pid, mutants, repo='/repo', tier='quick', keep=False, jobs=2):
     """mutants: list of dict(name, file, old, new, expect='caught'|'verified', count=1)"""
     from concurrent.futures import ThreadPoolExecutor
     with ThreadPoolExecutor(jobs) as ex:
@@ -47,7 +47,7 @@ def _run_one(pid, m, repo, tier):
             env['PYVC_EVIDENCE_DIR'] = os.path.join(tmp, 'evidence')
             env['PYVC_REPLAY_DIR'] = os.path.join(tmp, 'replay')
             try:
-                p = subprocess.run([os.path.join(VERIF, 'check'), pid, '--tier', tier, '--repo', dst, '--procs', '8'],
+                p = subprocess.run([os.path.join(VERIF, 'check'), pid, '--tier', tier, '--repo', dst, '--procs', '12'],
                                    capture_output=True, text=True, env=env, timeout=int(os.environ.get('PYVC_MUT_TIMEOUT', '2400')))
             except subprocess.TimeoutExpired:
                 subprocess.run(['pkill', '-f', dst], capture_output=True)
